@@ -86,6 +86,11 @@ class Rpms(productmd.common.MetadataBase):
         except ValueError:
             raise ValueError("Invalid N-E:V-R.A: %s" % nevra)
 
+        # a colon elsewhere in the file name (name, release, arch) is no epoch
+        name = nevra[:-4] if nevra.endswith(".rpm") else nevra
+        if productmd.common.RPM_NVRA_RE.match(name).group("epoch") is None:
+            raise ValueError("Missing epoch in N-E:V-R.A: %s" % nevra)
+
         nevra_dict["epoch"] = nevra_dict["epoch"] or 0
         nevra = "%(name)s-%(epoch)s:%(version)s-%(release)s.%(arch)s" % nevra_dict
         return nevra, nevra_dict
